@@ -26,6 +26,8 @@ func runC12(c *Ctx) {
 	c.Rule("R12.5", 1, "a rule handle finds the synthesised non-terminals of its rule: the memo's hash agrees with its equality")
 	c.Rule("R12.4", 4, "handle productions are the grammar's own production objects")
 
+	c.Rule("R12.6", 1, "the levels handed out with the result are the recorded levels themselves")
+	checkLevelsHandedOutAsRecorded(c, "R12.6")
 	c.mute = map[string]bool{"R4.2": true}
 	g := extractEBNF(c, "R12.1")
 	if g == nil {
@@ -661,4 +663,86 @@ func handleCtorKind(c *Ctx, fo *types.Func) string {
 	}
 	sort.Strings(ks)
 	return "sometimes a " + strings.Join(ks, " and sometimes a ") + " handle"
+}
+
+
+// checkLevelsHandedOutAsRecorded (R12.6): the Precedences field of the *Spec that spec.Parse returns is what the symbol table's
+// accessor of the recorded levels returned (directly, or through a local), not a function of it: a post-pass over the finished
+// levels (dropping handles no rule mentions, merging levels) makes the result differ from the directives.
+func checkLevelsHandedOutAsRecorded(c *Ctx, rule string) {
+	sp := c.Pkg("internal/ebnf/parser/spec")
+	if sp == nil {
+		return
+	}
+	info := sp.TypesInfo
+	isAccessor := func(e ast.Expr) bool {
+		call, ok := ast.Unparen(e).(*ast.CallExpr)
+		if !ok || len(call.Args) != 0 {
+			return false
+		}
+		fo, ok := objOf(info, call.Fun).(*types.Func)
+		if !ok || fo.Pkg() != sp.Types {
+			return false
+		}
+		sig := fo.Type().(*types.Signature)
+		return sig.Recv() != nil && sig.Results().Len() == 1 && typeIs(sig.Results().At(0).Type(), "parser/lr", "PrecedenceLevels")
+	}
+	found := 0
+	AllFuncDecls(sp, func(fd *ast.FuncDecl) {
+		if fd.Body == nil {
+			return
+		}
+		// locals defined by the accessor
+		fromAccessor := map[types.Object]bool{}
+		ast.Inspect(fd.Body, func(n ast.Node) bool {
+			if as, ok := n.(*ast.AssignStmt); ok && len(as.Lhs) == 1 && len(as.Rhs) == 1 && isAccessor(as.Rhs[0]) {
+				if id, ok := as.Lhs[0].(*ast.Ident); ok {
+					if o := info.Defs[id]; o != nil {
+						fromAccessor[o] = true
+					} else if o := info.Uses[id]; o != nil {
+						fromAccessor[o] = true
+					}
+				}
+			}
+			return true
+		})
+		ast.Inspect(fd.Body, func(n ast.Node) bool {
+			cl, ok := n.(*ast.CompositeLit)
+			if !ok {
+				return true
+			}
+			if _, name := namedTypeName(info.TypeOf(cl)); name != "Spec" {
+				return true
+			}
+			fs, _ := compositeFields(cl)
+			v, ok := fs["Precedences"]
+			if !ok {
+				return true
+			}
+			found++
+			key := funcKey(sp, fd) + ": the result's precedence levels are the recorded ones"
+			switch x := ast.Unparen(v).(type) {
+			case *ast.Ident:
+				if fromAccessor[info.Uses[x]] {
+					c.Pass(rule, key, v.Pos(), "")
+					return true
+				}
+			case *ast.CallExpr:
+				if isAccessor(x) {
+					c.Pass(rule, key, v.Pos(), "")
+					return true
+				}
+				if fo, ok := objOf(info, x.Fun).(*types.Func); ok && fo.Pkg() == sp.Types {
+					c.Fail(rule, key, v.Pos(), "the levels pass through "+fo.Name()+"(…) before they are handed out: what the caller gets is a function of the recorded directives, not the directives",
+						`a directive that lists a terminal no rule mentions: @left "*" "/" "%" with no rule using "%"`)
+					return true
+				}
+			}
+			c.Undecided(rule, key, v.Pos(), "the value of the Precedences field was not traced to the accessor of the recorded levels")
+			return true
+		})
+	})
+	if found == 0 {
+		c.Undecided(rule, "the result's precedence levels are the recorded ones", token.NoPos, "no Spec literal with a Precedences field was found")
+	}
 }
